@@ -94,6 +94,10 @@ std::thread_local! {
     pub static STAT: [StdAtomicUsize; 10] = Default::default();
     /// cells the lazy initialisers write (set per iteration)
     static LZ_CELLS: RefCell<[Option<SArc<US<loom::cell::UnsafeCell<usize>>>>; 2]> = RefCell::new([None, None]);
+    /// what the initialiser of LZ1 does besides constructing: "yield" (yield_now) or "rmw" (an RMW on the loom atomic `lzc`,
+    /// a scheduling point that is no yield); set by the interpreter right before it touches the static
+    static LZ_MODE: RefCell<String> = RefCell::new(String::from("yield"));
+    static LZ_ATOM: std::cell::Cell<*const AtomicUsize> = std::cell::Cell::new(std::ptr::null());
 }
 fn stat_add(i: usize) -> usize {
     STAT.with(|s| s[i].fetch_add(1, StdOrd::SeqCst))
@@ -143,7 +147,13 @@ impl LzVal {
         }
         if k == 1 {
             // a scheduling point inside the initialiser: another thread may race on first access
-            loom::thread::yield_now();
+            let rmw = LZ_MODE.with(|m| m.borrow().as_str() == "rmw");
+            let a = LZ_ATOM.with(|a| a.get());
+            if rmw && !a.is_null() {
+                unsafe { (*a).fetch_add(1, Ordering::Relaxed) };
+            } else {
+                loom::thread::yield_now();
+            }
         }
         let own = US::new(loom::cell::UnsafeCell::new(0usize));
         own.get().with_mut(|_| ());
@@ -309,7 +319,7 @@ impl Sh {
                 idx.insert(n.clone(), i);
             }
         }
-        let atoms = prog.atoms.iter().map(|_| US::new(AtomicUsize::new(0))).collect();
+        let atoms: Vec<US<AtomicUsize>> = prog.atoms.iter().map(|_| US::new(AtomicUsize::new(0))).collect();
         let cells: Vec<_> = prog
             .cells
             .iter()
@@ -348,6 +358,7 @@ impl Sh {
         }
         DROPS.with(|x| *x.borrow_mut() = drops);
         STAT.with(|s| for c in s.iter() { c.store(0, StdOrd::SeqCst); });
+        LZ_ATOM.with(|a| a.set(match idx.get("lzc") { Some(i) => atoms[*i].get() as *const AtomicUsize, None => std::ptr::null() }));
         LZ_CELLS.with(|c| {
             let mut c = c.borrow_mut();
             for k in 0..2 {
@@ -804,6 +815,7 @@ fn run_thread(sh: SArc<Sh>, t: usize) {
             "tlwith" => res = Some(tl_bump(&ins.o) as i64),
             "tlnest" => res = Some(tl_nest(&ins.o, &ins.o2) as i64),
             "lzget" => {
+                LZ_MODE.with(|m| *m.borrow_mut() = if ins.k == "rmw" { "rmw".into() } else { "yield".into() });
                 let v = lz_ref(&ins.o);
                 lzrefs.insert(ins.o.clone(), v);
                 res = Some(v.id as i64);
